@@ -203,7 +203,55 @@ func runChannels(a *Analyzer, r *Results) {
 }
 
 // overwriteIdiom: before the select, on every path: if len(ch) == cap(ch) { select { case <-ch: default: } }
+// either inline or in a helper that is called (with the channel) in a block dominating the send.
 func overwriteIdiom(fn *ssa.Function, sel *ssa.Select, ch ssa.Value, c *FCtx) (bool, string) {
+	if ok, _ := overwriteIdiomIn(fn, sel, ch, c); ok {
+		return true, ""
+	}
+	key := c.Term(ch).Key()
+	for _, b := range fn.Blocks {
+		if !b.Dominates(sel.Block()) {
+			continue
+		}
+		for _, in := range b.Instrs {
+			call, ok := in.(*ssa.Call)
+			if !ok {
+				continue
+			}
+			if b == sel.Block() {
+				// must precede the select
+				before := false
+				for _, i2 := range b.Instrs {
+					if i2 == ssa.Instruction(call) {
+						before = true
+					}
+					if i2 == ssa.Instruction(sel) {
+						break
+					}
+				}
+				if !before {
+					continue
+				}
+			}
+			g := call.Call.StaticCallee()
+			if g == nil || g.Blocks == nil {
+				continue
+			}
+			for i, arg := range call.Call.Args {
+				if c.Term(arg).Key() != key || i >= len(g.Params) {
+					continue
+				}
+				gc := c.A.NewFCtx(g, c.A.EntryEnv(g, nil), 0)
+				if ok, _ := overwriteIdiomIn(g, nil, g.Params[i], gc); ok {
+					return true, ""
+				}
+			}
+		}
+	}
+	return false, "no `if len(ch)==cap(ch) { select { case <-ch: default: } }` precedes the send"
+}
+
+func overwriteIdiomIn(fn *ssa.Function, sel *ssa.Select, ch ssa.Value, c *FCtx) (bool, string) {
 	key := c.Term(ch).Key()
 	// find a non-blocking select receiving from the same channel in a block dominating the send-select, guarded by len==cap
 	for _, b := range fn.Blocks {
@@ -224,7 +272,15 @@ func overwriteIdiom(fn *ssa.Function, sel *ssa.Select, ch ssa.Value, c *FCtx) (b
 				continue
 			}
 			cmp, ok := ifi.Cond.(*ssa.BinOp)
-			if !ok || cmp.Op != token.EQL {
+			if !ok || (cmp.Op != token.EQL && cmp.Op != token.NEQ) {
+				continue
+			}
+			// the receive must be on the "buffer is full" side
+			fullSide := b.Preds[0].Succs[0]
+			if cmp.Op == token.NEQ {
+				fullSide = b.Preds[0].Succs[1]
+			}
+			if fullSide != b {
 				continue
 			}
 			isLenCap := func(x, y ssa.Value) bool {
@@ -241,7 +297,7 @@ func overwriteIdiom(fn *ssa.Function, sel *ssa.Select, ch ssa.Value, c *FCtx) (b
 			if !(isLenCap(cmp.X, cmp.Y) || isLenCap(cmp.Y, cmp.X)) {
 				continue
 			}
-			if b.Preds[0].Dominates(sel.Block()) {
+			if sel == nil || b.Preds[0].Dominates(sel.Block()) {
 				return true, ""
 			}
 		}
